@@ -308,13 +308,13 @@ PROPS['C23'] = {
 }
 PROPS['C27'] = {
     'title': 'Component round trip preserves structure at any nesting depth',
-    'props_files': ['Orca/Props/C27.lean'],
+    'props_files': ['Orca/Props/C27.lean'], 'translator': True,
     'families': [{'name': 'comp', 'quick_n': 1500, 'thorough_n': 100000}],
     'rule': 'the component fixtures of the repository that validate, then generated component trees: nesting depth 0-4, each level 1-6 items drawn from 12 pieces (core modules, core instances + aliases + lifted functions + exports, lowered imports, '
             'a zoo of defined types, resources, stream / future types at top level and inside instance and component type declarations, imports of functions and instances, core module types, custom sections) and nested components, some instantiated; '
             'distinct by case line; non-trivial always',
     'trusted': COMMON_TRUST + [
-        'modelled as the identity, not verified: the conversion of the contents of component-level sections (component.rs, wrappers.rs, wasm-encoder\'s re-encoder): compared per case on wasmprinter text of input and output; nested core modules are C01/C02',
+        'modelled as the identity, not verified: the conversion of the contents of component-level sections (component.rs, wrappers.rs, wasm-encoder\'s re-encoder): compared per case on wasmprinter text of input and output; nested core modules are C01/C02; of these conversions, the arms over component defined types are regenerated from the source on every run (translator/scan_deftypes.py) and checked against a committed dictionary (c27_defined_type_arms)',
     ],
     'assumptions': ['the input component validates under wasmparser with all features enabled'],
     'design_ref': 'DESIGN.md section 6, C27',
